@@ -3,7 +3,8 @@ import FatVerif.Proofs.NoWriteModel6
 
 `setDirtyFlag b` (`FileSystem::set_dirty_flag`) makes the on-disk status byte equal to
 `encode(mount_time_dirty || b, mount_time_io_error)`, writing that one byte (offset 0x25, FAT32: 0x41) iff it differs from
-the current one. `FsIoAdapter::write` calls it after a successful write, `File::write` before anything else,
+the current one. `FsIoAdapter::write` calls it BEFORE its first modifying write (fix f695ddf), `File::write` and
+`File::truncate` before anything else,
 `unmount` calls it with `false` (restoring the mount-time value). All statements are about the write log of the
 device (`Dev.log`, newest first). -/
 namespace FatVerif
@@ -91,24 +92,164 @@ theorem setDirtyFlag_within (b : Bool) (d : Dev) {r d'} (hr : run (setDirtyFlag 
         exact (LogWithin.of_log_eq hs.2.1).trans this
     · exact LogWithin.of_log_eq (run_seekStart_spec _ d h1).2.1
 
-/-- **`adapter_write_sets_dirty`**: a successful `FsIoAdapter::write` of `n > 0` bytes ends with the dirty flag set -/
+theorem run_seekCur0_spec (d : Dev) {r d1} (hr : run (Prog.seek (.cur 0)) d = (r, d1)) :
+    d1.fs = d.fs ∧ d1.log = d.log ∧ (∀ v, r = .ok v → v = d.pos ∧ d1.pos = d.pos) := by
+  have hc : (d.count .s).fs = d.fs ∧ (d.count .s).log = d.log ∧ (d.count .s).pos = d.pos := by unfold Dev.count; simp
+  simp only [Prog.seek, run, stepOp, devCall, devCallCore] at hr
+  split at hr
+  · cases hr; exact ⟨hc.1, hc.2.1, fun v hv => by cases hv⟩
+  · simp only [Int.add_zero] at hr
+    have hnn : ¬ (((d.count .s).pos : Int) < 0) := by omega
+    simp only [hnn, if_false, Int.toNat_natCast] at hr
+    cases hr
+    exact ⟨hc.1, hc.2.1, fun v hv => by cases hv; exact ⟨hc.2.2, hc.2.2⟩⟩
+
+/-- **`set_dirty_flag_before_write`** (fix f695ddf), every outcome: nothing happens on a volume already marked dirty;
+    otherwise whatever is written lies in the status byte, on success the flag is set, exactly the status record
+    was appended, and the storage position is the one the caller had set up -/
+theorem markDirtyBeforeWrite_spec (d : Dev) {r d'} (hr : run markDirtyBeforeWrite d = (r, d')) :
+    (d.fs.curDirty = true → r = .ok () ∧ d' = d) ∧
+    (d.fs.curDirty = false →
+      LogWithin (statusOff d.fs) (statusOff d.fs + 1) d d' ∧
+      (∀ u, r = .ok u → d'.fs = { d.fs with curDirty := d.fs.bpbDirty || true, curIoErr := d.fs.bpbIoErr } ∧
+        d'.log = statusWrite d.fs true :: d.log ∧ d'.pos = d.pos)) := by
+  unfold markDirtyBeforeWrite at hr
+  rcases run_bind_cases hr with ⟨fs, d0, h0, hr⟩ | ⟨e, h0, _⟩
+  rotate_left
+  · simp only [Prog.getFs, run, stepOp] at h0; cases h0
+  simp only [Prog.getFs, run, stepOp] at h0
+  cases h0
+  split at hr
+  · rename_i hdirty
+    have hr' : run (Prog.pure ()) d = (r, d') := hr
+    simp only [run] at hr'; cases hr'
+    exact ⟨fun _ => ⟨rfl, rfl⟩, fun h => by rw [h] at hdirty; exact absurd hdirty (by decide)⟩
+  · rename_i hclean
+    have hcl : d.fs.curDirty = false := by cases h : d.fs.curDirty <;> simp_all
+    refine ⟨fun h => (by rw [h] at hcl; cases hcl), fun _ => ?_⟩
+    rcases run_bind_cases hr with ⟨pos, d1, h1, hr⟩ | ⟨e, h1, he⟩
+    · have s1 := run_seekCur0_spec d h1
+      obtain ⟨hpv, _⟩ := s1.2.2 _ rfl
+      subst hpv
+      rcases run_bind_cases hr with ⟨u, d2, h2, hr⟩ | ⟨e, h2, he⟩
+      · have hsp := setDirtyFlag_spec true d1 h2
+        have hw := setDirtyFlag_within true d1 h2
+        rw [s1.1] at hw hsp
+        have hncur : ¬ StatusCurrent d.fs true := by
+          rintro ⟨h, _⟩; rw [hcl] at h; simp at h
+        have hlog2 : d2.log = statusWrite d.fs true :: d.log := by
+          have := hsp.2.2 hncur
+          rw [this, s1.2.1]
+        rcases run_bind_cases hr with ⟨_, d3, h3, hr⟩ | ⟨e, h3, he⟩
+        · have hr' : run (Prog.pure ()) d3 = (r, d') := hr
+          simp only [run] at hr'; cases hr'
+          have s3 := run_seekStart_spec _ d2 h3
+          refine ⟨((LogWithin.of_log_eq s1.2.1).trans hw).trans (LogWithin.of_log_eq s3.2.1), fun u _ => ?_⟩
+          exact ⟨by rw [s3.1, hsp.1], by rw [s3.2.1, hlog2], s3.2.2 _ rfl⟩
+        · subst he
+          have s3 := run_seekStart_spec _ d2 h3
+          exact ⟨((LogWithin.of_log_eq s1.2.1).trans hw).trans (LogWithin.of_log_eq s3.2.1), fun u hu => by cases hu⟩
+      · subst he
+        have hw := setDirtyFlag_within true d1 h2
+        rw [s1.1] at hw
+        exact ⟨(LogWithin.of_log_eq s1.2.1).trans hw, fun u hu => by cases hu⟩
+    · subst he
+      have s1 := run_seekCur0_spec d h1
+      exact ⟨LogWithin.of_log_eq s1.2.1, fun u hu => by cases hu⟩
+
+/-- exact outcome of one device write -/
+theorem stepOp_write_exact (bs : List Nat) (d : Dev) {r d1} (hr : stepOp (.write bs) d = (r, d1)) :
+    d1.fs = d.fs ∧
+    ((∃ e, r = .error e ∧ d1.log = d.log) ∨
+     (r = .ok (min bs.length (d.img.size - d.pos)) ∧
+      d1.log = .write d.pos (bs.take (min bs.length (d.img.size - d.pos))) :: d.log ∧
+      d1.pos = d.pos + min bs.length (d.img.size - d.pos))) := by
+  have hc : (d.count .w).fs = d.fs ∧ (d.count .w).log = d.log ∧ (d.count .w).pos = d.pos ∧ (d.count .w).img = d.img := by
+    unfold Dev.count; simp
+  simp only [stepOp, devCall, devCallCore] at hr
+  split at hr
+  · cases hr
+    exact ⟨hc.1, Or.inl ⟨_, rfl, hc.2.1⟩⟩
+  · cases hr
+    refine ⟨hc.1, Or.inr ⟨?_, ?_, ?_⟩⟩
+    · simp only [hc.2.2.1, hc.2.2.2]
+    · simp only [hc.2.1, hc.2.2.1, hc.2.2.2]
+    · simp only [hc.2.2.1, hc.2.2.2]
+
+theorem adapterStrm_write_unfold (bs : List Nat) : adapterStrm.write () bs =
+    if bs.length > 0 then Prog.bind markDirtyBeforeWrite (fun _ => Prog.bind (Prog.write bs) (fun n => Prog.pure (n, ())))
+    else Prog.bind (Prog.write bs) (fun n => Prog.pure (n, ())) := rfl
+
+/-- **`adapter_write_marks_dirty_first`** (fix f695ddf; STRONGER than the former `adapter_write_sets_dirty`, which only
+    said that the flag is set once a write of `n > 0` bytes has succeeded): every outcome of `FsIoAdapter::write` with a
+    non-empty buffer on a volume whose dirty flag is not yet set. Either the call fails and whatever it wrote lies
+    inside the status byte (so: if marking the volume dirty fails, no data is written; if the data write fails, only
+    the status byte was written) — or it succeeds, the flag is set, and it appended exactly two records: the
+    status-byte record with the dirty bit, and AFTER it the data record at the position the caller had set up. -/
+theorem adapter_write_marks_dirty_first (bs : List Nat) (hne : bs ≠ []) (d : Dev) (hclean : d.fs.curDirty = false)
+    {r d'} (hr : run (adapterStrm.write () bs) d = (r, d')) :
+    ((∃ e, r = .error e) ∧ LogWithin (statusOff d.fs) (statusOff d.fs + 1) d d') ∨
+    (∃ m, r = .ok (m, ()) ∧ d'.fs.curDirty = true ∧
+      d'.log = .write d.pos (bs.take m) :: statusWrite d.fs true :: d.log) := by
+  have hlen : bs.length > 0 := by
+    cases bs with
+    | nil => exact absurd rfl hne
+    | cons _ _ => simp
+  rw [adapterStrm_write_unfold, if_pos hlen] at hr
+  rcases run_bind_cases hr with ⟨u, d1, h1, h2⟩ | ⟨e, h1, he⟩
+  · have hm := (markDirtyBeforeWrite_spec d h1).2 hclean
+    obtain ⟨hfs1, hlog1, hpos1⟩ := hm.2 _ rfl
+    rcases run_bind_cases h2 with ⟨m, d2, h3, h4⟩ | ⟨e, h3, he⟩
+    · simp only [run] at h4; cases h4
+      simp only [Prog.write, run] at h3
+      rcases stepOp_write_exact bs d1 h3 with ⟨hfs, ⟨e, he, _⟩ | ⟨hm', hlog, _⟩⟩
+      · cases he
+      · cases hm'
+        refine Or.inr ⟨_, rfl, by rw [hfs, hfs1]; simp, ?_⟩
+        rw [hlog, hlog1, hpos1]
+    · subst he
+      simp only [Prog.write, run] at h3
+      rcases stepOp_write_exact bs d1 h3 with ⟨hfs, ⟨e', _, hlog⟩ | ⟨hm', _, _⟩⟩
+      · exact Or.inl ⟨⟨_, rfl⟩, hm.1.trans (LogWithin.of_log_eq hlog)⟩
+      · cases hm'
+  · subst he
+    exact Or.inl ⟨⟨_, rfl⟩, ((markDirtyBeforeWrite_spec d h1).2 hclean).1⟩
+
+/-- **`adapter_write_sets_dirty`**: once `FsIoAdapter::write` has written `n > 0` bytes the dirty flag is set (it was
+    set BEFORE the bytes went out: `adapter_write_marks_dirty_first`) -/
 theorem adapter_write_sets_dirty (bs : List Nat) (d : Dev) {n : Nat} {d' : Dev}
     (hr : run (adapterStrm.write () bs) d = (.ok (n, ()), d')) (hn : n > 0) : d'.fs.curDirty = true := by
-  simp only [adapterStrm] at hr
-  rcases run_bind_cases hr with ⟨m, d1, _, h2⟩ | ⟨e, _, he⟩
-  · split at h2
-    · rcases run_bind_cases h2 with ⟨u, d2, h3, h4⟩ | ⟨e, _, he⟩
-      · have h4' : run (Prog.pure (m, ())) d2 = (.ok (n, ()), d') := h4
-        simp only [run] at h4'
-        cases h4'
-        have := (setDirtyFlag_spec true d1 h3).1
-        rw [this]; simp
+  have hne : bs ≠ [] := by
+    rintro rfl
+    rw [adapterStrm_write_unfold] at hr
+    rw [if_neg (by simp)] at hr
+    rcases run_bind_cases hr with ⟨m, d2, h3, h4⟩ | ⟨e, _, he⟩
+    · simp only [run] at h4; cases h4
+      simp only [Prog.write, run] at h3
+      rcases stepOp_write_exact [] d h3 with ⟨_, ⟨e, he, _⟩ | ⟨hm', _, _⟩⟩
       · cases he
-    · have h2' : run (Prog.pure (m, ())) d1 = (.ok (n, ()), d') := h2
-      simp only [run] at h2'
-      cases h2'
-      omega
-  · cases he
+      · simp at hm'; omega
+    · cases he
+  cases hcd : d.fs.curDirty with
+  | false =>
+    rcases adapter_write_marks_dirty_first bs hne d hcd hr with ⟨⟨e, he⟩, _⟩ | ⟨m, _, h, _⟩
+    · cases he
+    · exact h
+  | true =>
+    have hlen : bs.length > 0 := by
+      cases bs with
+      | nil => exact absurd rfl hne
+      | cons _ _ => simp
+    rw [adapterStrm_write_unfold, if_pos hlen] at hr
+    rcases run_bind_cases hr with ⟨u, d1, h1, h2⟩ | ⟨e, _, he⟩
+    · obtain ⟨_, hd1⟩ := (markDirtyBeforeWrite_spec d h1).1 hcd
+      subst hd1
+      rcases run_bind_cases h2 with ⟨m, d2, h3, h4⟩ | ⟨e, _, he⟩
+      · simp only [run] at h4; cases h4
+        simp only [Prog.write, run] at h3
+        rw [(stepOp_write_exact bs d1 h3).1]; exact hcd
+      · cases he
+    · cases he
 
 /-- `flush_fs_info` touches only the FS-info part of the mounted state -/
 theorem flushFsInfo_fs (d : Dev) {r d'} (hr : run flushFsInfo d = (r, d')) :
@@ -219,6 +360,26 @@ theorem file_write_marks_dirty_first (f : FileH) (buf : List Nat) (d : Dev) (hcl
     · obtain ⟨items, h3, h4⟩ := setDirtyFlag_within true d h1
       exact ⟨items, h3, Or.inl h4⟩
 
+/-- **`truncate_marks_dirty_first`** (fix f695ddf): the same for `File::truncate` — before the fix the first record of
+    a truncation was a FAT entry; now the records the call appends are either all inside the status byte (it failed
+    while setting the flag), or the OLDEST of them is the status-byte record with the dirty bit set -/
+theorem truncate_marks_dirty_first (f : FileH) (d : Dev) (hclean : d.fs.curDirty = false)
+    {r d'} (hr : run f.truncate d = (r, d')) :
+    ∃ items, d'.log = items ++ d.log ∧
+      ((∀ it ∈ items, it.within (statusOff d.fs) (statusOff d.fs + 1)) ∨
+       (∃ rest, items = rest ++ [.write (statusOff d.fs) [statusByte d.fs true]])) := by
+  unfold FileH.truncate at hr
+  rcases run_bind_cases hr with ⟨_, d1, h1, h2⟩ | ⟨e, h1, _⟩
+  · have hsp := setDirtyFlag_spec true d h1
+    have hncur : ¬ StatusCurrent d.fs true := by
+      rintro ⟨h, _⟩; rw [hclean] at h; simp at h
+    have hlog := hsp.2.2 hncur
+    obtain ⟨items2, h3⟩ := run_logExtends _ _ _ _ h2
+    refine ⟨items2 ++ [statusWrite d.fs true], by rw [h3, hlog]; simp, Or.inr ⟨items2, ?_⟩⟩
+    rfl
+  · obtain ⟨items, h3, h4⟩ := setDirtyFlag_within true d h1
+    exact ⟨items, h3, Or.inl h4⟩
+
 /-- **`mount_reports_dirty`** (mounted-state level): after a successful mount the current flags equal the mount-time
     flags, and when the volume was marked dirty the FS-info free count is discarded. PARTIAL with respect to the
     intended statement: that `bpbDirty` is bit 0 of byte 0x25/0x41 of the image is a fact about `Bpb.geometry`
@@ -281,5 +442,48 @@ example :
     d.fs.statusRaw < 256 ∧ d.fs.bpbDirty = (d.fs.statusRaw % 2 == 1) ∧ d.fs.bpbIoErr = (d.fs.statusRaw / 2 % 2 == 1) ∧
     (run unmountInternal (run (setDirtyFlag true) d).2).2.log = [.write 0x25 [0x84], .write 0x25 [0x85]] := by
   decide
+
+/-- `FsIoAdapter::write` of two bytes at position 1000 of a clean volume (the hypotheses of
+    `adapter_write_marks_dirty_first` hold): the status byte goes out first, then the data -/
+example :
+    let d : Dev := { C12ex.dev16 with pos := 1000 }
+    d.fs.curDirty = false ∧
+    (run (adapterStrm.write () [7, 8]) d).1.toOption = some (2, ()) ∧
+    (run (adapterStrm.write () [7, 8]) d).2.log = [.write 1000 [7, 8], .write 0x25 [1]] ∧
+    (run (adapterStrm.write () [7, 8]) d).2.fs.curDirty = true := by decide
+
+/-- … and when the status write fails (device call 3: the seek to query the position, the seek to 0x25, the write)
+    the call fails and NOTHING has been written — the first disjunct of `adapter_write_marks_dirty_first` -/
+example :
+    let d : Dev := { C12ex.dev16 with pos := 1000, failAt := some 3 }
+    resErr (run (adapterStrm.write () [7, 8]) d).1 = some (.io 3) ∧
+    (run (adapterStrm.write () [7, 8]) d).2.log = [] := by decide
+
+/-- … on a volume already marked dirty no status record and no extra seek: one device call -/
+example :
+    let d : Dev := (run (setDirtyFlag true) { C12ex.dev16 with pos := 1000 }).2
+    (run (adapterStrm.write () [7, 8]) d).2.log = [.write 0x26 [7, 8], .write 0x25 [1]] ∧
+    (run (adapterStrm.write () [7, 8]) d).2.calls = d.calls + 1 := by decide
+
+/-- `File::truncate` at offset 0 of an empty file on a clean volume: the status byte is written (and nothing else) -/
+example : C12ex.dev16.fs.curDirty = false ∧
+    (run (FileH.new none (some (DirEntryEditor.new (DirFileEntryData.new [] 0) 1024))).truncate C12ex.dev16).2.log
+      = [.write 0x25 [1]] := by decide +kernel
+
+/-- LIMIT of the dirty-first property (why there is no whole-session `first_write_is_status_byte`): the write-back of a
+    directory entry (`DirEntryEditor::flush`) goes to the raw storage, not through `FsIoAdapter`. A session that only
+    changes a time stamp (`set_modified`, here; likewise `set_created`, `set_accessed`, a `read` with
+    `update_accessed_date`) and flushes writes the 32-byte record of the entry and NEVER touches the status byte: the
+    cached flag stays clean. (`File::write` and `File::truncate` mark the volume dirty first; every FAT and
+    root-directory write goes through the adapter.) -/
+example :
+    let f : FileH := (FileH.new none (some (DirEntryEditor.new (DirFileEntryData.new [] 0) 1024))).setModified
+      ⟨⟨2001, 2, 3⟩, ⟨4, 5, 6, 0⟩⟩
+    resErr (run f.flush C12ex.dev16).1 = none ∧
+    (run f.flush C12ex.dev16).2.fs.curDirty = false ∧
+    (run f.flush C12ex.dev16).2.log.length = 9 ∧
+    (run f.flush C12ex.dev16).2.log.all (fun it => match it with
+      | .write o b => 1024 ≤ o && o + b.length ≤ 1056
+      | .flush => true) = true := by decide +kernel
 
 end FatVerif
